@@ -104,15 +104,8 @@ func (self Compiler) getMangledFn(input string) (string, bool) {
 		}
 	}
 
-	// TODO: i don't think that this is really reliable
-	for _, module := range self.modules {
-		for key, fn := range module {
-			if key == input {
-				return fn.MangledName, true
-			}
-		}
-	}
-
+	// Not a function of this module and not imported by it: the name is not a Homescript function here
+	// (it may be a builtin of the host). A same-named function of an unrelated module must not be used.
 	return "", false
 }
 
